@@ -4,7 +4,7 @@
 cd /verif
 if ! git -C /repo diff --quiet; then echo "/repo has uncommitted changes; refusing"; exit 3; fi
 mkdir -p /verif/.cache/ev_backup && cp -f evidence/*.json /verif/.cache/ev_backup/
-IDS="C01 C02 C03 C04 C05 C06 C07 C08 C09 C10 C12 C13 C14 C16 C17 C18 C19 C20"
+IDS="${IDS:-C01 C02 C03 C04 C05 C06 C07 C08 C09 C10 C12 C13 C14 C16 C17 C18 C19 C20}"
 for d in ${@:-$(ls benign)}; do
   [ -f benign/$d/patch.diff ] || continue
   git -C /repo apply /verif/benign/$d/patch.diff || { echo "$d: patch does not apply"; continue; }
